@@ -14,6 +14,7 @@
  *   file <name> <bytes>           creates a file with exactly these bytes
  *   mkdir <name>
  *   setenv <name> <value|->
+ *   prog <name>                   libast_set_program_name()  (outside init..free: the name string is the program's)
  *   reg <name> <h>                spifconf_register_context(name, handler number h)
  *   regbi <name>                  spifconf_register_builtin(name, harness built-in)
  *   parse <name> [<dir> <path>]   spifconf_parse(); ret = returned string
@@ -373,6 +374,11 @@ static const char *vh_step(const vh_step_t *st, vh_sb *ret, vh_sb *state) {
         sb_bool(ret, mkdir(name, 0755) == 0);
         made_add(name);
         free(name);
+    } else if (!strcmp(op, "prog")) {                 /* process-wide setting: the program name (magic line of config files) */
+        char *name = argstr(st->args[0]);
+        libast_set_program_name(name);
+        free(name);
+        sb_bool(ret, 1);
     } else if (!strcmp(op, "setenv")) {
         char *name = argstr(st->args[0]), *val = argstr(st->args[1]);
         if (val) setenv(name, val, 1); else unsetenv(name);
